@@ -32,7 +32,7 @@ type Parser struct {
 // NewParserWithReader returns a new parser for the specified reader.
 func NewParserWithReader(msgReader io.Reader) *Parser {
 	Parser := &Parser{
-		reader: msgReader,
+		reader: &dataFirstReader{reader: msgReader, err: nil},
 	}
 	return Parser
 }
@@ -172,4 +172,27 @@ func (parser *Parser) Next() (*Message, error) {
 		return nil, err
 	}
 	return msg, nil
+}
+
+// dataFirstReader hands out the bytes of a Read that returned both bytes and an
+// error before the error: io.Reader allows a Read to return n > 0 together with
+// io.EOF (crypto/tls does so when the close_notify of the peer is already
+// buffered), and the parser reads its lines byte by byte.
+type dataFirstReader struct {
+	reader io.Reader
+	err    error
+}
+
+func (r *dataFirstReader) Read(p []byte) (int, error) {
+	if r.err != nil {
+		err := r.err
+		r.err = nil
+		return 0, err
+	}
+	n, err := r.reader.Read(p)
+	if 0 < n && err != nil {
+		r.err = err
+		return n, nil
+	}
+	return n, err
 }
